@@ -1,7 +1,8 @@
 """C20 — results are independent of processing history and inputs are left unmodified.
 
-MC   : spec/mc/MC_History: all job sequences <=3 over an abstract menu; with the protections of the code (provider cache keyed by hardware,
-       per-call copies of rule attributes) every observed result equals the fresh one; each protection switched off must fail.
+MC   : spec/mc/MC_History: all job sequences <=3 over an abstract menu and four per-process caches (rulebooks, row regexps, ACLs, ordering);
+       with the protections of the code (fine keys: hardware, text+flags; private copies: rule attributes, merged ACL children, the
+       Orderer's ordering) every observed result equals the fresh one; each of the five protections switched off must fail.
 S2C  : spec/mc/MC_HistorySeq emits every sequence of job indexes up to the bound; each sequence is executed in ONE forked process (as a pool
        worker serves devices); the reference of every job is computed alone in a fresh fork of the pristine parent.
 C2S  : spec/trace/Trace_History compares, position by position, with the fresh reference; frame conditions (old, new, compiled rulebook
@@ -192,7 +193,8 @@ def run(ctx):
     ctx.assumptions += ["a forked child of the driver (annet imported, no job run yet) counts as a fresh process",
                         "results are compared by digest of (stripped diff, command paths, ordered config)",
                         "compiled ACLs carry a scratch `match` field: only result equality is required for them"]
-    for cfg, expect in (("ok", None), ("regress_key", "ObsDeterminism"), ("regress_copy", "CacheFrame")):
+    for cfg, expect in (("ok", None), ("regress_key", "ObsDeterminism"), ("regress_rekey", "ObsDeterminism"), ("regress_copy", "CacheFrame"),
+                        ("regress_aclmerge", "CacheFrame"), ("regress_orderer", "CacheFrame")):
         r = ctx.mc("mc/MC_History.tla", "mc/MC_History_%s.cfg" % cfg, workers=2, expect_ok=False)
         if expect is None and r.violated:
             ctx.reject("mc", "History model: %s" % r.violated, {"tlc": r.out[-3000:]}, None)
